@@ -332,6 +332,31 @@ def css_parse(text):
     return None
 
 
+def lib_hsl_parse(text):
+    """The library's documented extension of hsl(): saturation and lightness are EACH either a percentage or a fraction in
+    [0, 1] ("percentage and fractional component values are supported", per token).  Returns the same shape as css_parse for
+    opaque hsl() strings in which at least one of the two is a bare fraction; None otherwise (plain CSS goes through css_parse)."""
+    if not isinstance(text, str):
+        return None
+    low = text.strip(" \t\r\n\f").lower()
+    m = re.fullmatch(rf"hsl\({_WS}({_NUM}){_WS},{_WS}({_NUM})(%?){_WS},{_WS}({_NUM})(%?){_WS}\)", low)
+    if not m or (m.group(3) and m.group(5)):
+        return None
+    h = Fraction(m.group(1))
+    def comp(tok, pct):
+        v = Fraction(tok)
+        if pct:
+            return _clamp(v, 0, 100) / 100
+        if not (0 <= v <= 1):
+            return None            # a bare number outside [0, 1] is not a fraction: the library refuses it
+        return v
+    sat, lig = comp(m.group(2), m.group(3)), comp(m.group(4), m.group(5))
+    if sat is None or lig is None:
+        return None
+    chans = [_round_half_set(_clamp(c, 0, 1) * 255) for c in hsl_exact(h, sat, lig)]
+    return dict(kind="hsl-lib", chans=chans, alpha=None)
+
+
 def css_read_opaque(text):
     """Read-back of an opaque CSS colour as a single 8-bit triple, or None when the value is not
     valid CSS, is translucent, or denotes a tie (two admissible values)."""
